@@ -5,7 +5,9 @@ from engine import site
 
 CONFIGS = ['prod']
 EXPLANATION = (
-    'Decided clauses: K1 who-may-call — outside datacake-crdt the only callers of HLCTimestamp::send / ::recv are inside the clock '
+    'Decided clauses: SEM the actor loop (found by role: the coroutine that receives from a channel and advances an HLCTimestamp) is interpreted '
+    'sequentially on the queue [Get, Register r1, Get, Register r2] (actor_abs): it issues one stamp per Get and answers exactly that stamp, merges '
+    'every registered stamp, in queue order, consuming every event; K1 who-may-call — outside datacake-crdt the only callers of HLCTimestamp::send / ::recv are inside the clock '
     'actor loop (floor 2 sites, ceiling: none elsewhere); K2 one owner — no field of Clock holds clock state or a shared cell over it '
     '(channel endpoints excepted), the actor takes the timestamp by value, Clock::new moves the single receiver into exactly one spawned '
     'actor and the receiver is never cloned anywhere in the crate; K3 the answer is the stamp just issued — the value sent on the reply '
@@ -24,6 +26,14 @@ CHANNEL_ENDPOINTS = ('flume::Sender', 'tokio::sync::mpsc', 'tokio::sync::oneshot
 
 def check(ctx):
     facts = ctx.facts('prod')
+    # ---- SEM: the actor loop, found by role and interpreted on a queue of requests (actor_abs) -------------------------------
+    import actor_abs
+    sem = actor_abs.check_clock_actor(ctx, facts, 'C11.SEM')
+    group = set()
+    actor_body = None
+    if sem:
+        actor_body, reach = sem
+        group = {b.name for b in reach} | {actor_body.name}
     # ---- K1 -----------------------------------------------------------------------
     inside, outside = [], []
     for b in facts.bodies.values():
@@ -31,7 +41,8 @@ def check(ctx):
             continue
         for blk, t in b.calls():
             if cname(t) in (HT + '::send', HT + '::recv'):
-                (inside if b.name.startswith(N + 'run_clock') else outside).append((b, t))
+                is_in = b.name.startswith(N + 'run_clock') or b.name in group or any(b.name.startswith(g + '::{') for g in group)
+                (inside if is_in else outside).append((b, t))
     for b, t in outside:
         ctx.bad('C11.K1', 'foreign-caller|%s|%s' % (b.name, last_seg(cname(t))), site(b, t['cs']),
                 '%s advances a clock outside the clock actor: two owners can issue the same or regressing stamps for one node id' % b.name)
@@ -67,11 +78,22 @@ def check(ctx):
                'field %s: %s holds no clock state' % (f['name'], f['ty']) if r is None else
                'field %s: %s %s — clock state lives outside the single actor, concurrent callers can read or advance it without serialisation' % (f['name'], f['ty'], r))
     rc = facts.body(N + 'run_clock')
-    if rc is None:
+    if rc is None and not sem:
         ctx.bad('C11.K2', 'run_clock', '', 'run_clock not found')
         return
-    ctx.ob('C11.K2', 'actor-owns-state-by-value', rc.local_ty(1) == HT, site(rc),
-           'run_clock takes its clock as `%s`' % rc.local_ty(1))
+    if rc is not None:
+        ctx.ob('C11.K2', 'actor-owns-state-by-value', rc.local_ty(1) == HT, site(rc),
+               'run_clock takes its clock as `%s`' % rc.local_ty(1))
+    else:
+        # the loop found by role owns its clock by value: none of the state it captures is a shared cell or a reference to a clock
+        ups = actor_abs.upvar_types(actor_body)
+        shared = [ty for ty in ups.values() if (HT in ty and (ty.startswith('&') or any(sh in ty for sh in SHARED)))]
+        for ty in ups.values():
+            a = facts.adts.get(ty_head(ty))
+            if a is not None and a['kind'] == 'struct':
+                shared += [f['ty'] for f in a['variants'][0]['fields'] if HT in f['ty'] and (f['ty'].startswith('&') or any(sh in f['ty'] for sh in SHARED))]
+        ctx.ob('C11.K2', 'actor-owns-state-by-value', not shared, site(actor_body),
+               'the actor loop owns its clock by value' if not shared else 'the actor loop reaches its clock through %s' % shared)
     new = facts.body(N + 'Clock::new')
     if new is None:
         ctx.bad('C11.K2', 'Clock::new', '', 'Clock::new not found')
@@ -81,11 +103,23 @@ def check(ctx):
     chans = [(b, t) for b, t in calls if cname(t) and cname(t).startswith('flume::') and last_seg(cname(t)) in ('bounded', 'unbounded')]
     actors = [(b, t) for b, t in calls if cname(t) == N + 'run_clock']
     spawns = [(b, t) for b, t in calls if cname(t) == 'tokio::task::spawn::spawn']
-    good = len(chans) == 1 and len(actors) == 1 and len(spawns) == 1
-    if good:
-        good = chans[0][1]['dest']['l'] in flow.backward([op_local(actors[0][1]['args'][1])]) and \
-            actors[0][1]['dest']['l'] in flow.backward([op_local(spawns[0][1]['args'][0])]) and \
-            not any(in_loop(new, b) for b, t in actors + spawns)
+    if sem and not actors:
+        # the actor found by role: what is spawned is that loop (its async fn's future, or the async block itself), built from the receiver
+        good = len(chans) == 1 and len(spawns) == 1
+        if good:
+            back = Flow(new, all_calls=True).backward([op_local(spawns[0][1]['args'][0])])
+            made = [cname(t) for b, t in calls if t['dest']['l'] in back and cname(t) and facts.body(cname(t)) is not None
+                    and any(actor_body.name.startswith(cname(t) + '::{') or cname(t) in group for _ in [0])]
+            blocks_ = [s_['rv']['def'] for _b, _j, s_ in new.assigns() if s_['lhs']['l'] in back and s_['rv']['k'] == 'aggregate' and s_['rv'].get('agg') == 'coroutine']
+            good = chans[0][1]['dest']['l'] in back and (bool(made) or strip_generics(actor_body.defp) in [strip_generics(x) for x in blocks_]) \
+                and not any(in_loop(new, b) for b, t in spawns)
+        actors = spawns
+    else:
+        good = len(chans) == 1 and len(actors) == 1 and len(spawns) == 1
+        if good:
+            good = chans[0][1]['dest']['l'] in flow.backward([op_local(actors[0][1]['args'][1])]) and \
+                actors[0][1]['dest']['l'] in flow.backward([op_local(spawns[0][1]['args'][0])]) and \
+                not any(in_loop(new, b) for b, t in actors + spawns)
     ctx.ob('C11.K2', 'one-actor', bool(good), site(new),
            'Clock::new creates one channel and spawns exactly one run_clock owning its receiver' if good else
            'Clock::new does not spawn exactly one actor owning the channel receiver (%d channels, %d actors, %d spawns)' % (len(chans), len(actors), len(spawns)))
@@ -94,13 +128,13 @@ def check(ctx):
         if b.crate != 'datacake_node' or b.d['promoted']:
             continue
         for blk, t in b.calls():
-            if cname(t) == 'core::clone::Clone::clone' and (t.get('gargs') or [''])[0].startswith('flume::Receiver<datacake_node::clock::Event'):
+            if cname(t) == 'core::clone::Clone::clone' and (t.get('gargs') or [''])[0].startswith('flume::Receiver<datacake_node::clock::'):
                 rclones.append((b, t))
     ctx.ob('C11.K2', 'receiver-never-cloned', not rclones, site(rclones[0][0], rclones[0][1]['cs']) if rclones else '',
            'the clock actor\'s receiver is never cloned' if not rclones else 'the receiver is cloned: a second actor can consume requests with its own clock copy')
 
     # ---- K3 -----------------------------------------------------------------------------
-    rcc = facts.bodies.get(rc.defp + '::{closure#0}')
+    rcc = facts.bodies.get(rc.defp + '::{closure#0}') if rc is not None else actor_body
     if rcc is None:
         ctx.bad('C11.K3', 'run_clock-body', '', 'run_clock coroutine body not found')
         return
@@ -120,9 +154,10 @@ def check(ctx):
             # same iteration: the path from send() to the reply does not go round the loop
             hdr = [bb for bb, tt in calls if cname(tt) and 'recv_async' in cname(tt)]
             good = good and not (set(hdr) & (rcc.reachable_from([sends[0][0]], avoid=[b]) - {sends[0][0]}) and False)
-    ctx.ob('C11.K3', 'reply-is-issued-stamp', bool(good), site(rcc, replies[0][1]['cs'] if replies else None),
-           'the value answered on the reply channel is this iteration\'s clock.send() result' if good else
-           'the reply does not carry (only) the stamp just issued by clock.send()')
+    if not sem:
+        ctx.ob('C11.K3', 'reply-is-issued-stamp', bool(good), site(rcc, replies[0][1]['cs'] if replies else None),
+               'the value answered on the reply channel is this iteration\'s clock.send() result' if good else
+               'the reply does not carry (only) the stamp just issued by clock.send()')
     # both act on the actor's own clock (argument 1 of the coroutine = captured `clock`)
     gt = [b for b in facts.bodies.values() if b.kind == 'coroutine' and b.name == N + 'Clock::get_time::{closure#0}']
     for b in gt:
@@ -158,6 +193,8 @@ def check(ctx):
                '%s hands its event to the actor with %s (waits for queue space)' % (who, sorted({last_seg(cname(t)) for bb, t in snd})) if snd and not bad_s else
                '%s uses %s: when the actor\'s queue is full the event is dropped, so a remote stamp that was "registered" is never merged and a later '
                'get_time can return a smaller stamp' % (who, bad_s or 'no channel send'))
+    if sem:
+        return
     # every dequeue site hands a Register event to clock.recv: no site may take an event off the queue and drop it
     deq = [(b, t) for b, t in calls if cname(t) and cname(t).startswith('flume::') and last_seg(cname(t)) in ('recv_async', 'try_recv', 'recv', 'recv_timeout', 'recv_deadline')]
     ev = facts.adts.get(N + 'Event')
